@@ -590,7 +590,7 @@ func c15Canon(text string) (string, error) {
 func init() {
 	Register(Meta{
 		ID: "C15", Level: "model_checking", LongCases: true,
-		Rule: "state = profile YAML text; initial states = 4 base profiles (sibling keys at every mapping level with nested two levels and and/or of three operands; three validations over three levels with placeholders and a user prefix bound to a default namespace; several quantified constraints under one propertyConstraints map; conditionals/negation/several constraints on one property); transitions, every applicable (operator, position): swap two adjacent keys of any mapping, swap two adjacent items of any sequence (level lists, and/or operands, value lists), rename a user prefix consistently, replace a user prefix by a default prefix bound to the same namespace, plain/single/double quoting of any string scalar (keys included), flow<->block style of any collection, comment insertion, indent width, CRLF line ends, trailing blanks. Depth-bounded search deduplicated on the text; every successor is first validated to denote the same abstract profile (canonical form with IRIs expanded and collections unordered); every state's (conforms, result set with messages) on a data graph must equal the base spelling's.",
+		Rule:        "state = profile YAML text; initial states = 4 base profiles (sibling keys at every mapping level with nested two levels and and/or of three operands; three validations over three levels with placeholders and a user prefix bound to a default namespace; several quantified constraints under one propertyConstraints map; conditionals/negation/several constraints on one property); transitions, every applicable (operator, position): swap two adjacent keys of any mapping, swap two adjacent items of any sequence (level lists, and/or operands, value lists), rename a user prefix consistently, replace a user prefix by a default prefix bound to the same namespace, plain/single/double quoting of any string scalar (keys included), flow<->block style of any collection, comment insertion, indent width, CRLF line ends, trailing blanks. Depth-bounded search deduplicated on the text; every successor is first validated to denote the same abstract profile (canonical form with IRIs expanded and collections unordered); every state's (conforms, result set with messages) on a data graph must equal the base spelling's.",
 		Assumptions: []string{"block scalars do not occur in the base profiles (trailing-blank and CRLF rewrites would change them)"},
 	}, c15Gen, c15Run)
 }
